@@ -165,7 +165,7 @@ def session_messages(chk):
         if hh.dead:
             chk.violation("the server harness aborted on corpus file %s: %s" % (os.path.basename(f), hh.dead[2][-600:]), cops, key="c10:corpus-abort")
     for k in range(32 if thorough else 12):
-        g = srvgen.Gen(random.Random(chk.seed * 104729 + k), srv, bind=5353)
+        g = srvgen.Gen(random.Random(chk.seed * 104729 + k), srv, bind=5353, wild=(True if k % 3 == 1 else None), other=(3.0 if k % 3 == 1 else 1.0))
         h = g.run(400)
         ops = [s.op for s in h.steps]
         # "each answer carries the id, name and type of the query it answers": every answer must match a received, unanswered query
@@ -178,6 +178,7 @@ def session_messages(chk):
             last_ans = None
             dq = next((e for e in st.events if e[0] == "dq"), None)
             scope = question_in_scope(st.op)
+            ns_answered = False
             for e in st.events:
                 if e[0] in ("nsa", "fwd") and not scope:
                     msgs.append((vlib.unhx(e[2]), ops[:i + 1][-40:], None))        # out of the quantifier's scope for the echo clause
@@ -188,6 +189,7 @@ def session_messages(chk):
                     msgs.append((vlib.unhx(e[2]), ops[:i + 1][-40:], {"id": int(last_ans[2]), "name": vlib.unhx(last_ans[5]), "type": int(last_ans[3]), "answer": True}))
                     last_ans = None
                 elif e[0] == "nsa" and dq is not None:
+                    ns_answered = True
                     name = vlib.unhx(dq[4])
                     exp = {"id": int(dq[2]), "name": name, "type": int(dq[3]), "answer": True}
                     if int(dq[3]) == 2:
@@ -199,6 +201,10 @@ def session_messages(chk):
                     msgs.append((vlib.unhx(e[2]), ops[:i + 1][-40:], exp))
                 elif e[0] == "fwd":
                     msgs.append((vlib.unhx(e[2]), ops[:i + 1][-40:], {"id": int(dq[2]) if dq else None, "name": vlib.unhx(dq[4]) if dq else None, "type": int(dq[3]) if dq else None}))
+            # "NS queries under the tunnel domain are answered with ns.<domain>": the generator's own NS queries (plain or wildcard-served domain,
+            # legal names) must get an answer at all
+            if st.meta.get("kind") == "ns" and scope and dq is not None and int(dq[1]) > 0 and not ns_answered and not chk.violations:
+                chk.violation("C10 fails on the implementation: the NS query for %r (server domain %r) got no answer" % (vlib.unhx(dq[4])[:60], g.srvtd), ops[:i + 1], key="c10:ns-unanswered")
     # write_dns for every type and downstream codec with payloads around the capacity of a host name / TXT chunk boundaries
     wd = []
     for t in TYPES:
